@@ -38,8 +38,12 @@ func (g *graph[T]) checkCycle() error {
 	// iterate on vertices in a name-order to render a predicable error message
 	// this is required by tests and enforce command reproducibility by user, which otherwise could be confusing
 	names := utils.MapKeys(g.vertices)
+	// vertices whose descendants have all been searched: no cycle can be reached through them, whatever the
+	// path they are reached by. Without it the search walks every path of the graph, and a layered graph
+	// of a few dozen services has billions of them.
+	cleared := map[*vertex[T]]bool{}
 	for _, name := range names {
-		err := searchCycle([]string{name}, g.vertices[name])
+		err := searchCycle([]string{name}, g.vertices[name], cleared)
 		if err != nil {
 			return err
 		}
@@ -47,17 +51,21 @@ func (g *graph[T]) checkCycle() error {
 	return nil
 }
 
-func searchCycle[T any](path []string, v *vertex[T]) error {
+func searchCycle[T any](path []string, v *vertex[T], cleared map[*vertex[T]]bool) error {
+	if cleared[v] {
+		return nil
+	}
 	names := utils.MapKeys(v.children)
 	for _, name := range names {
 		if i := slices.Index(path, name); i >= 0 {
 			return fmt.Errorf("dependency cycle detected: %s -> %s", strings.Join(path[i:], " -> "), name)
 		}
 		ch := v.children[name]
-		err := searchCycle(append(path, name), ch)
+		err := searchCycle(append(path, name), ch, cleared)
 		if err != nil {
 			return err
 		}
 	}
+	cleared[v] = true
 	return nil
 }
